@@ -31,9 +31,12 @@ partial def elOfJson (j : Json) : Except String El := do
         let t := (Rows.entryGet e "control" "tag").getD ""
         if t = "upload" && Rows.entryGet e "control" "mediatype" = some "osm/*" then "osm" else t
       | none => ""
-    pure (.q { name, type := ty, default := getStrD j "default" "", calcu := getStrD j "calc" "",
-               trigger := getStrD j "trigger" "", labelled := getBoolD j "labelled" true,
-               hasCtl := Rows.tagHasControl tag, tag := tag.toList })
+    let calcv := getStrD j "calc" ""
+    let typeBind := match entry with | some e => Rows.entryHas e "bind" | none => false
+    let typeHint := match entry with | some e => (Rows.entryGet e "" "hint").isSome | none => false
+    pure (.q { name, type := ty, default := getStrD j "default" "", calcu := calcv,
+               trigger := getStrD j "trigger" "", labelled := getBoolD j "labelled" true || typeHint,
+               hasCtl := Rows.tagHasControl tag, tag := tag.toList, hasBind := typeBind || !calcv.isEmpty })
   else
     let kids ← (← getArr j "kids").toList.mapM elOfJson
     if k == "rep".toList then pure (.rep name kids) else pure (.grp name kids)
@@ -61,7 +64,8 @@ partial def ctlsOf : List Body → List (Str × Path)
   | .group r ks :: rest => ("group".toList, r) :: (ctlsOf ks ++ ctlsOf rest)
   | .rep r ks _ :: rest => ("repeat".toList, r) :: (ctlsOf ks ++ ctlsOf rest)
 
-def model (root : Str) (els : List El) : Json :=
+def model (root : Str) (els0 : List El) : Json :=
+  let els := prep els0
   match Lexer.activeRules with
   | none => Json.mkObj [("outcome", "unsupported"), ("why", "lexer rule table is not the pinned one")]
   | some rules =>
